@@ -341,6 +341,15 @@ impl<'o, T: Elem> Exec<'o, T> {
                 let after: Vec<u32> = td.data().iter().map(|e| e.val()).collect();
                 self.tok(format!("indep={}", b01(before == after)));
             }
+            Op::EqSelf => {
+                // `td == td` through two references to the same array
+                let a: &TooDee<T> = td;
+                let b: &TooDee<T> = td;
+                self.arm();
+                let e = a == b;
+                self.disarm();
+                self.tok(b01(e));
+            }
             Op::CloneFrom(c, r, l) => {
                 // `td.clone_from(&src)`: afterwards `td` must equal `src`; the source is dropped at the end of the step
                 let o = TooDee::from_vec(*c, *r, mkvec::<T>(l));
